@@ -78,7 +78,9 @@ add('TAGNEW',
 
 # X-SORT
 add('SORT',
-    Rule('X-SORT', '$v:i.sort_by_key(|a| a.pos());', 'sort_tags_by_pos(&mut $v);', stmt_start=True))
+    Rule('X-SORT', '$v:i.sort_by_key(|a| a.pos());', 'sort_tags_by_pos(&mut $v);', stmt_start=True),
+    # an UNSTABLE sort promises less: sorted and a permutation, but not the order of equal keys
+    Rule('X-SORT', '$v:i.sort_unstable_by_key(|a| a.pos());', 'sort_tags_by_pos_unstable(&mut $v);', stmt_start=True))
 
 # X-FOR: `for x in v` over a Vec / slice -> indexed while loop (Verus: no `continue` in `for`,
 # no invariants over std iterators).
